@@ -352,3 +352,72 @@ theorem convex_never_numerics_dense (e : Env K n p m) (sqrtF : K → K) (hsq : E
     (realOps_convInv e (dense_factor_after_rescale e sqrtF hsq hd hin hP) hτ0 hτ1 heps hft) ls.c (ls.w, ls.kkt) ls.info h
 end real
 end Piqp.C02
+
+namespace Piqp.C02
+section solver
+open Piqp.C14
+variable {K : Type} [Field K] [LinearOrder K] [IsStrictOrderedRing K] [Inhabited K]
+variable {n p m : Nat}
+
+theorem verify_facts (st : Settings K) (hv : st.verify = true) :
+    0 < st.rhoInit ∧ 0 < st.deltaInit ∧ 0 < st.regLowerLimit ∧ 0 < st.tau := by
+  unfold Settings.verify at hv
+  simp only [Bool.and_eq_true, decide_eq_true_eq] at hv
+  obtain ⟨⟨⟨⟨⟨⟨⟨⟨⟨⟨⟨⟨⟨⟨⟨⟨⟨⟨⟨h1, h2⟩, h3⟩, h4⟩, h5⟩, h6⟩, h7⟩, h8⟩, h9⟩, h10⟩, h11⟩, h12⟩, h13⟩, h14⟩, h15⟩, h16⟩, h17⟩, h18⟩, h19⟩, h20⟩ := hv
+  exact ⟨h1, h2, h7, h13⟩
+
+/-- **C02 / C12 at the level of `solve()`, sparse back ends, exact arithmetic.** For a solver whose stored (scaled) `P` is
+    positive semidefinite and whose KKT caches agree with its data (C04: every state reachable through `setup`/`update`/
+    `solve`), with valid settings, `τ < 1`, a positive fine-tuning floor, after an `update()` or an earlier `solve()`
+    (`kktInitState = false`), and when the Mehrotra-style initial point is well defined (`hguard`, the hypothesis of C08's
+    `initialPoint_in_cone`): `solve()` never answers NUMERICS — the first factorisation succeeds without retries and so does
+    every later one, for every fill-reducing permutation. -/
+theorem solve_never_numerics (cs : Consts K) (sqrtF : K → K) (s : Solver K n p m) (perm : Vector (Fin (n + p + m)) (n + p + m))
+    (hperm : IsPerm perm) (hsp : s.be.isDense = false) (hv : s.st.verify = true) (hτ1 : s.st.tau < 1)
+    (hft : 0 < s.st.regFinetuneLowerLimit) (heps : 0 ≤ cs.machEps) (h15 : 1 ≤ cs.c1_5) (h05 : 0 < cs.c0_5)
+    (hP : ∀ x : Vec K n, 0 ≤ quad s.data.Psym x) (hc : C13.CachesOk s.be s.data s.kkt) (hki : s.kktInitState = false)
+    (hnl : s.data.lb.cnt ≤ n) (hnu : s.data.ub.cnt ≤ n)
+    (hguard : ∀ (w0 : Work K n p m) (kkt1 : KKT K n p m) (b : Bool), m + s.data.lb.cnt + s.data.ub.cnt ≠ 0 →
+      0 < (mehrotraShift cs s.data (ipBeforeShift cs s (Solver.env cs sqrtF s perm) w0 kkt1 b)).2.2) :
+    (solveTyped cs sqrtF s perm).2 ≠ Status.numerics := by
+  obtain ⟨hρ0, hδ0, hrl, hτ0⟩ := verify_facts s.st hv
+  have hin : (Solver.env cs sqrtF s perm).inner = innerLDLT (Solver.env cs sqrtF s perm).be perm := by
+    simp only [Solver.env, execInner, hsp, Bool.false_eq_true, if_false]
+  -- the start state: slacks and multipliers at one
+  have hstart : ConvInv (Solver.env cs sqrtF s perm) ((solveStart cs sqrtF s perm).1, s.kkt) (solveStart cs sqrtF s perm).2.2 := by
+    refine ⟨?_, hc, hρ0, hδ0, hrl⟩
+    simp only [solveStart, Solver.env]
+    refine ⟨fun i => ?_, fun i => ?_, fun i hi => ?_, fun i hi => ?_, fun i hi => ?_, fun i hi => ?_⟩
+    · simp [Vec.const]
+    · simp [Vec.const]
+    · rw [C08.headUpd_get']; simp [hi]
+    · rw [C08.headUpd_get']; simp [hi]
+    · rw [C08.headUpd_get']; simp [hi]
+    · rw [C08.headUpd_get']; simp [hi]
+  have hk0 : (solveStart cs sqrtF s perm).2.1 =
+      ((realOps (Solver.env cs sqrtF s perm)).rescale ((solveStart cs sqrtF s perm).1, s.kkt) (solveStart cs sqrtF s perm).2.2).2 := by
+    simp only [solveStart, hki, Bool.not_false, if_true, realOps]
+  have hpair : ((solveStart cs sqrtF s perm).1, (solveStart cs sqrtF s perm).2.1) =
+      (realOps (Solver.env cs sqrtF s perm)).rescale ((solveStart cs sqrtF s perm).1, s.kkt) (solveStart cs sqrtF s perm).2.2 :=
+    Prod.ext rfl hk0
+  have hP' : ∀ x : Vec K n, 0 ≤ quad (Solver.env cs sqrtF s perm).data.Psym x := hP
+  have hfa := factor_after_rescale (Solver.env cs sqrtF s perm) perm hperm hsp hin hP' s.refineOn _ _ hstart
+  have hinvfa := ((realOps_convInv (Solver.env cs sqrtF s perm) (factor_after_rescale (Solver.env cs sqrtF s perm) perm hperm hsp hin hP')
+    hτ0 hτ1 heps hft).rescale s.refineOn _ _ hstart).2
+  rw [← hpair] at hfa hinvfa
+  unfold solveTyped
+  simp only [hv, Bool.not_true, Bool.false_eq_true, if_false]
+  rw [initLoopG.eq_def]
+  simp only [hfa, if_true, Bool.not_true, Bool.false_eq_true, if_false]
+  apply convex_never_numerics (Solver.env cs sqrtF s perm) perm hperm hsp hin hP' hτ0 hτ1 heps hft
+  obtain ⟨_, hck, hr, hd, hl⟩ := hinvfa
+  refine ⟨?_, ?_, ?_, ?_, ?_⟩
+  · exact C08.initialPoint_in_cone cs s (Solver.env cs sqrtF s perm) (solveStart cs sqrtF s perm).1
+      ((realOps (Solver.env cs sqrtF s perm)).factor s.refineOn ((solveStart cs sqrtF s perm).1, (solveStart cs sqrtF s perm).2.1)).1.2
+      (solveStart cs sqrtF s perm).2.2 s.refineOn hnl hnu h15 h05 (hguard _ _ _)
+  · rw [C04.initialPoint_kkt]; exact hck
+  · unfold initialPoint; simp only; split <;> exact hr
+  · unfold initialPoint; simp only; split <;> exact hd
+  · unfold initialPoint; simp only; split <;> exact hl
+end solver
+end Piqp.C02
